@@ -405,6 +405,7 @@ func (r *vrC07Replica) deliver(tx []byte) ResponseDeliverTx {
 func (r *vrC07Replica) check(tx []byte) ResponseCheckTx {
 	return r.app.txChecker()(RequestCheckTx{Tx: tx})
 }
+
 // THE mempool step: mallory's real signed PROPOSAL_FINALIZE through the real CheckTx closure. Returns "" when the
 // mempool accepted it and the handler finalized the proposal (in the check state).
 func (r *vrC07Replica) mempoolFinalize() string {
